@@ -423,6 +423,12 @@ class ScriptSession:
                 self.after_stop_or_end(self._ev(("stopped", "terminated"), mark), gap)
             elif self.view == "stopped" and a == "inspect":
                 self.snapshots(gap)
+            elif self.view == "stopped" and a == "evalmem":
+                # memory reads outside the program image, up to the very end of the address space
+                for e in ("ram($fff0)", "ram16($fffe)", "ram16($ffff)"):
+                    if d.request("evaluate", {"expression": e}, 1.5) is None:
+                        self.view = "lost"        # the observation row says so; the judge decides what that means
+                        break
             elif self.view == "running" and a == "probe":
                 # Registers of the running machine: an instant of the run at which everything installed so far is in force
                 self.probe_seqs.add(d.seq + 1)
@@ -434,7 +440,7 @@ class ScriptSession:
 def observations(log, probe_seqs=()):
     """Reshape a Dap.log into the observation rows DebuggerTrace.tla reads (stream order, no judging).
     probe_seqs: request numbers of `variables` requests sent while the machine was believed to run."""
-    out, reqs, frame, regs = [], {}, None, None
+    out, reqs, frame, regs, memreq = [], {}, None, None, {}
 
     def num(s):
         try:
@@ -452,6 +458,12 @@ def observations(log, probe_seqs=()):
                 out.append({"k": "launch"})
             elif c in ("continue", "pause") + STEP_CMDS:
                 out.append({"k": "req", "c": c})
+            elif c == "evaluate" and m["arguments"]["expression"].startswith("ram"):
+                e = m["arguments"]["expression"]
+                row = {"k": "evalmem", "width": 2 if e.startswith("ram16") else 1, "addr": int(e[e.index("$") + 1:e.index(")")], 16),
+                       "answered": False, "ok": False, "val": -1}
+                memreq[m["seq"]] = row
+                out.append(row)
         elif m.get("type") == "event":
             if m.get("event") in ("stopped", "continued", "terminated"):
                 out.append({"k": "ev", "e": m["event"], "reason": (m.get("body") or {}).get("reason", "")})
@@ -468,6 +480,9 @@ def observations(log, probe_seqs=()):
                     o.update(regs)
                     out.append(o)
                     regs = None
+            elif c == "evaluate" and m.get("request_seq") in memreq:
+                memreq[m["request_seq"]].update({"answered": True, "ok": bool(m.get("success")),
+                                                 "val": num((m.get("body") or {}).get("result", "")) if m.get("success") else -1})
             elif c == "evaluate":
                 ev = num((m.get("body") or {}).get("result", "")) if m.get("success") else -1
                 if frame is not None and regs is not None:
